@@ -98,6 +98,24 @@ pub fn msg_roundtrip(ctx: &mut Ctx, c: &SControl) {
             return;
         }
     };
+    // the same message written behind 64 KiB+ of earlier output (a batch in one writer) must be
+    // the same octets and decode the same
+    if ctx.rng.chance(1, 24) && ctx.tier != Tier::Miri {
+        let plen = *ctx.rng.pick(&[65_530usize, 65_536, 70_000, 131_072]);
+        let prefix = vec![0xeeu8; plen];
+        ctx.rep.bucket("msg.behind_64k_prefix");
+        match exec::encode_items(&prefix, &[exec::Item::Msg(&cm)], Wk::Vec) {
+            exec::EncOut::Ok(e) if e.bytes.len() == plen + enc.len() && e.bytes[plen..] == enc[..] && e.bytes[..plen] == prefix[..] => {}
+            exec::EncOut::Ok(e) => {
+                ctx.violate("C03:msg-roundtrip:behind-prefix:octets-differ", format!("the message written behind {} earlier octets is not the same octets ({} vs {} emitted)", plen, e.bytes.len().saturating_sub(plen), enc.len()), J::obj(vec![("message", J::s(format!("{:?}", c))), ("prefix_octets", J::U(plen as u64))]));
+                return;
+            }
+            exec::EncOut::Panic(p) => {
+                ctx.violate(format!("C03:encode-panic:behind-prefix:{}", p.class()), format!("encoding an in-domain control message behind {} earlier octets panicked: {}", plen, p.message), J::obj(vec![("message", J::s(format!("{:?}", c))), ("prefix_octets", J::U(plen as u64))]));
+                return;
+            }
+        }
+    }
     let hkey = crate::monitor::hll::hash_bytes(3, &enc).to_le_bytes();
     ctx.rep.case(&hkey, !c.avps.is_empty());
     ctx.rep.bucket(&format!("msg.size.{}", size_bucket(enc.len())));
